@@ -971,6 +971,27 @@ class Gen:
             raise NoFit()
         arrs = self.arrays("real", writable=True)
         arr = self.pick(arrs)
+        smalls = [v for v in self.vars.values()
+                  if v.typ == "int" and not v.dims and v.role == "in"
+                  and v.rng == (0, 1) and v.name.startswith("d")]
+        var = self.loop_stack[-1]
+        if smalls and arr.rank == 1 and var.rng and self.flip(1, 3):
+            # directed: the same small scalar with different coefficients
+            # on the two sides (v + s vs v + 2*s, v - s vs v + s, ...)
+            sml = self.pick(smalls)
+            lo, hi = var.rng
+            lb, ub = arr.dims[0]
+            forms = [(f"{var.name} + {sml.name}", lo, hi + 1),
+                     (f"{var.name} + 2 * {sml.name}", lo, hi + 2),
+                     (f"{var.name} - {sml.name}", lo - 1, hi),
+                     (f"{var.name}", lo, hi)]
+            forms = [f for f in forms if f[1] >= lb and f[2] <= ub]
+            if len(forms) >= 2:
+                one = self.pick(forms)
+                two = self.pick([f for f in forms if f is not one])
+                self.features.add("dep_pair_small_scalar")
+                return [f"{arr.name}({one[0]}) = ({arr.name}({two[0]}) + "
+                        f"{self.real_atom()})"]
         saved = self.prof["dep_index"]
         self.prof["dep_index"] = 100
         try:
